@@ -23,7 +23,17 @@ def _encodings():
     from bionumpy.encodings import alphabet_encoding as ae
     return {"ACTG": ae.ACTGEncoding, "ACGT": ae.ACGTEncoding, "ACTGN": ae.ACTGnEncoding, "ACGTN": ae.ACGTnEncoding,
             "DIGIT": ae.DigitEncoding, "ACUG": ae.ACUGEncoding, "AMINO": ae.AminoAcidEncoding, "BAM": ae.BamEncoding,
-            "CIGAR": ae.CigarOpEncoding, "STRAND": ae.StrandEncoding}
+            "CIGAR": ae.CigarOpEncoding, "STRAND": ae.StrandEncoding, "USER": _user_alphabet()}
+
+
+_USER = []
+
+
+def _user_alphabet():
+    if not _USER:
+        from bionumpy.encodings.alphabet_encoding import AlphabetEncoding
+        _USER.append(AlphabetEncoding("ACDEFGHIKLMNPQRSTVWYBZX*"))
+    return _USER[0]
 
 
 def _make(data, form):
@@ -39,6 +49,8 @@ def _make(data, form):
         return EncodedArray(arr, BaseEncoding)
     if form == "ragged":
         return EncodedRaggedArray(EncodedArray(np.concatenate([arr, arr[:1]]), BaseEncoding), [len(arr), min(1, len(arr))])
+    if form == "npstr":
+        return np.array(["".join(chr(b) for b in data), "".join(chr(b) for b in data[:1])])          # a NumPy array of str (dtype U)
     raise ValueError(form)
 
 
@@ -96,7 +108,8 @@ def check_vector(v):
         for fb in v["foreign"]:
             for pos in range(3):
                 data = members[:pos] + [fb] + members[pos:2]
-                for form in (("str", "list") if fb < 128 else ("base", "ragged")):
+                # (NumPy drops NULs at the end of a str element, so a NUL is only a character of the text when something follows it)
+                for form in (("str", "list") + (("npstr",) if not (fb == 0 and pos == 2) else ()) if fb < 128 else ("base", "ragged")):
                     o = outcome(lambda: bnp.as_encoded_array(_make(data, form), e))
                     n += 1
                     nt.append("f|%s|%d|%d|%s" % (A, fb, pos, form))
@@ -274,8 +287,8 @@ def run(ctx):
     ctx.notes.append("AsBuilt=TRUE instance (re-target compares alphabet[:m]): TLC refutes TextPreserved")
     vectors = res.vectors
     tables = [v for v in vectors if v["kind"] == "table"]
-    if len(tables) != 10:
-        raise core.MachineryFailure("expected 10 alphabet tables, got %d" % len(tables))
+    if len(tables) != len(_encodings()):
+        raise core.MachineryFailure("expected %d alphabet tables, got %d" % (len(_encodings()), len(tables)))
     ctx.sample({"kind": "table", "enc": tables[0]["enc"], "accepted_bytes": [b for b, c in enumerate(tables[0]["table"]) if c >= 0]})
     vals = [v for v in vectors if v["kind"] == "value"]
     ctx.sample(vals[len(vals) // 2])
